@@ -109,3 +109,113 @@ fn h_ipv4_encode_decode() {
         assert!(h.source.to_bytes() == src && h.destination.to_bytes() == dst);
     }
 }
+
+// ---------------------------------------------------------------------------
+// compute_checksum configuration (C18).  Reference implementation of RFC 1071
+// in 32-bit arithmetic with deferred carries, independent of utility.rs.
+// ---------------------------------------------------------------------------
+#[cfg(feature = "compute_checksum")]
+fn rfc1071_sum(words: &[u16]) -> u16 {
+    let mut s: u32 = 0;
+    let mut i = 0;
+    while i < words.len() {
+        s += words[i] as u32;
+        i += 1;
+    }
+    s = (s & 0xffff) + (s >> 16);
+    s = (s & 0xffff) + (s >> 16);
+    s as u16
+}
+#[cfg(feature = "compute_checksum")]
+fn words10(b: &[u8; 20]) -> [u16; 10] {
+    [be16(b[0], b[1]), be16(b[2], b[3]), be16(b[4], b[5]), be16(b[6], b[7]), be16(b[8], b[9]),
+     be16(b[10], b[11]), be16(b[12], b[13]), be16(b[14], b[15]), be16(b[16], b[17]), be16(b[18], b[19])]
+}
+#[cfg(feature = "compute_checksum")]
+fn structurally_valid(b: &[u8; 20]) -> bool {
+    b[0] == 0x45 && b[1] & 0b11 == 0 && be16(b[2], b[3]) >= 20 && b[6] & 0x80 == 0
+}
+
+//# id=checksum.emitted_header_verifies props=C18 kind=complete features=compute_checksum pair=
+// every emitted IPv4 header verifies under the RFC 1071 rule (sum of all ten words is all ones)
+#[cfg(feature = "compute_checksum")]
+#[cfg_attr(kani, kani::proof)]
+#[cfg_attr(kani, kani::unwind(22))]
+#[cfg_attr(vx_replay, test)]
+fn h_ck_ipv4_emit_verifies() {
+    let tos: u8 = any();
+    let payload_length: u16 = any();
+    let identification: u16 = any();
+    let fragment_offset: u16 = any();
+    let flags: u8 = any();
+    let ttl: u8 = any();
+    let protocol: u8 = any();
+    let src: [u8; 4] = any();
+    let dst: [u8; 4] = any();
+    vx_assume!(tos & 0b11 == 0 && flags <= 3);
+    let r = Ipv4HeaderBuilder {
+        type_of_service: TypeOfService::from(tos),
+        payload_length,
+        identification,
+        fragment_offset,
+        flags: ControlFlags::from(flags),
+        time_to_live: ttl,
+        protocol,
+        source: Ipv4Address::new(src),
+        destination: Ipv4Address::new(dst),
+    }
+    .build();
+    if let Ok(out) = r {
+        assert!(out.len() == 20);
+        let mut b = [0u8; 20];
+        let mut i = 0;
+        while i < 20 {
+            b[i] = out[i];
+            i += 1;
+        }
+        assert!(rfc1071_sum(&words10(&b)) == 0xffff);
+        // and the stack's own decoder accepts what it emitted
+        assert!(Ipv4Header::from_bytes(b.into_iter()).is_ok());
+    }
+}
+
+//# id=checksum.decoder_accepts_conforming props=C18 kind=complete features=compute_checksum pair=
+// the decoder accepts every structurally valid header whose checksum verifies under RFC 1071
+// (checksum field other than 0x0000: see the known-finding harness below for that class)
+#[cfg(feature = "compute_checksum")]
+#[cfg_attr(kani, kani::proof)]
+#[cfg_attr(kani, kani::unwind(22))]
+#[cfg_attr(vx_replay, test)]
+fn h_ck_ipv4_accepts_conforming() {
+    let b: [u8; 20] = any();
+    vx_assume!(structurally_valid(&b));
+    vx_assume!(rfc1071_sum(&words10(&b)) == 0xffff);
+    vx_assume!(!(b[10] == 0 && b[11] == 0));
+    assert!(Ipv4Header::from_bytes(b.into_iter()).is_ok());
+}
+
+//# id=checksum.decoder_accepts_conforming_zero_field props=C18 kind=complete features=compute_checksum pair=
+// class: a conforming sender whose other nine words sum to 0xffff transmits the checksum 0x0000
+#[cfg(feature = "compute_checksum")]
+#[cfg_attr(kani, kani::proof)]
+#[cfg_attr(kani, kani::unwind(22))]
+#[cfg_attr(vx_replay, test)]
+fn h_ck_ipv4_accepts_conforming_zero_field() {
+    let b: [u8; 20] = any();
+    vx_assume!(structurally_valid(&b));
+    vx_assume!(rfc1071_sum(&words10(&b)) == 0xffff);
+    vx_assume!(b[10] == 0 && b[11] == 0);
+    assert!(Ipv4Header::from_bytes(b.into_iter()).is_ok());
+}
+
+//# id=checksum.decoder_rejects_corruption props=C18 kind=complete features=compute_checksum pair=
+// a header that does not verify under RFC 1071 is never accepted
+#[cfg(feature = "compute_checksum")]
+#[cfg_attr(kani, kani::proof)]
+#[cfg_attr(kani, kani::unwind(22))]
+#[cfg_attr(vx_replay, test)]
+fn h_ck_ipv4_rejects_corruption() {
+    let b: [u8; 20] = any();
+    vx_assume!(rfc1071_sum(&words10(&b)) != 0xffff);
+    assert!(Ipv4Header::from_bytes(b.into_iter()).is_err());
+}
